@@ -5,7 +5,7 @@ CONSTANTS
   DimGiven = {TRUE, FALSE}
   Srcs = {0, 1, 2, 99}
   Noises = {"default", "scalar", "diag"}
-  Feats = {"named", "default"}
+  Feats = {"named", "default", "int_labels"}
   INames = {"kind", "custom"}
   Origins = {"fit", "fit_mem2", "fit_mem3", "hand", "edited"}
   NameIsKindOK = TRUE
